@@ -46,8 +46,9 @@ def zygote_init():
     from inscripta.biocantor.parent.parent import Parent
     from inscripta.biocantor.location.location_impl import _EmptyLocation
 
-    assert Parent.cache_info().currsize == 0, "zygote is not pristine: Parent cache not empty"
-    assert _EmptyLocation._instance is None, "zygote is not pristine: EmptyLocation instantiated"
+    if hasattr(Parent, "cache_info"):
+        assert Parent.cache_info().currsize == 0, "zygote is not pristine: Parent cache not empty"
+    assert getattr(_EmptyLocation, "_instance", None) is None, "zygote is not pristine: EmptyLocation instantiated"
 
 
 def run_sub(args, hashseed, timeout=None):
